@@ -58,7 +58,7 @@ def plan(tier, seed):
     backends = ["numpy"] if tier == "quick" else ["numpy", "pytorch", "jax"]
     for be in backends:
         for r in (-1.0, 0.0, 0.5, 2.0):
-            for sigma in (0.3, 1.0, 2.5):
+            for sigma in (0.003, 0.03, 0.3, 1.0, 2.5):
                 for level in LEVELS:
                     cases.append({"kind": "scripted", "backend": be, "ratio": r, "sigma": sigma, "level": level})
     mnames = ["poi1", "poi2"] + (["poi3c", "onoff", "srcr"] if tier == "thorough" else ["onoff"])
@@ -68,10 +68,10 @@ def plan(tier, seed):
                 cases.append({"kind": "real", "model": mn, "dataset": di, "level": level})
     return dict(
         cases=cases, chunk=2,
-        rule="scripted case = (backend, mu_hat/sigma in {-1,0,0.5,2}, sigma in {0.3,1,2.5}, level) x {automatic scan, linspace grids of 11/21/51 points} x "
+        rule="scripted case = (backend, mu_hat/sigma in {-1,0,0.5,2}, sigma in {0.003,0.03,0.3,1,2.5}, level) x {automatic scan, linspace grids of 11/21/51 points} x "
              "{qtilde, q} x {normal, clipped_normal} x return_results x deprecated alias; real case = (closed-form model, dataset, level) x both scan modes; "
              "non-trivial: every case (six distinct limits); distinct = distinct case",
-        alphabet={"levels": LEVELS, "ratios": [-1, 0, 0.5, 2], "sigmas": [0.3, 1.0, 2.5], "grids": [11, 21, 51], "models": mnames},
+        alphabet={"levels": LEVELS, "ratios": [-1, 0, 0.5, 2], "sigmas": [0.003, 0.03, 0.3, 1.0, 2.5], "grids": [11, 21, 51], "models": mnames},
         bound={},
         trusted_base=["mpmath", "mc/ref/stats.py", "mc/core/seams.ScriptedOptimizer"],
     )
@@ -141,6 +141,21 @@ def scripted(case):
                         if f(o2) != got[0] or [f(x) for x in e2] != got[1:]:
                             issues.append(C.issue("C09:auto:return_results", "limits differ with return_results on/off", **ctx))
                     dig.append([round(x, 5) for x in got])
+                # ---- the root finder's documented tolerances (direct toms748_scan calls)
+                for rtol in (1e-4, 1e-2):
+                    pdf = seams.FakePdf(npars=2, poi_bounds=(0, 10))
+                    try:
+                        obs, exp = upper_limits.toms748_scan([1.0], pdf, 0.0, 10.0, level=level, rtol=rtol, **kw)
+                    except Exception as e:
+                        issues.append(C.issue(f"C09:toms748:{type(e).__name__}", f"toms748_scan raised {e}"[:200], **ctx))
+                        continue
+                    got = [f(obs)] + [f(x) for x in exp]
+                    ncmp += 6
+                    for i, (g, r) in enumerate(zip(got, roots)):
+                        if not abs(g - r) <= 4 * (2e-12 + rtol * r):
+                            issues.append(C.issue("C09:toms748:tolerance", f"toms748_scan(rtol={rtol}): limit[{i}] = {g!r}, root {r!r}: |diff| {abs(g - r):.3g} > 4*(atol + rtol*root) = "
+                                                  f"{4 * (2e-12 + rtol * r):.3g}", **ctx))
+                            break
                 # ---- grids
                 top = min(10.0, max(roots) * 1.6 + 0.5)
                 for npts in (11, 21, 51):
